@@ -250,7 +250,9 @@ pub fn run(cfg: &Cfg, rep: &mut Report) {
                 (Ok(v), K::Nan) => v.is_nan(),
                 (Ok(v), K::Max) => *v == max,
                 (Ok(v), K::Min) => *v == min,
-                (Err(e), K::No) => is_command_error(e.get_code()),
+                // an unknown word is rejected; whether that counts as a type fault (-104, command error) or as a
+                // value outside the allowed set (execution error) is not fixed by the statement
+                (Err(_), K::No) => true,
                 _ => false,
             };
             if !ok {
